@@ -36,6 +36,13 @@ CLAIMED = {
              "and diameter to 1e-12).",
         note="Bounded scope. Spline values between nodes are FITPACK numerics (trusted): only identity, node pass-through, polynomial "
              "exactness and complex split are asserted for zoom/zoom_rbs."),
+    "C19": dict(
+        engine="tlc+replay", design_ref="DESIGN.md §3 C19",
+        technique="TLA+ spec Estimators.tla: lag loop over exact rationals (alloc + one action per lag) and the FFT/half/abs2/mean pipeline over Z[i] and Z[zeta_8]; TLC checks Impl = Def, RampLaw, Quadratic, Parseval, PeakAtBin; every state replayed into calculate_structure_function / calc_slope_temporalps / get_tps_time_axis",
+        text="Exhaustive over all 3x3 phase arrays with values 0..2, ramps with impulses up to 6x6 (9x9 thorough) with steps 1..3 and "
+             "three lag counts, all slope arrays over -1..1 for 2 and 4 frames (8 frames sparse / exhaustive in thorough), exact "
+             "sinusoids; each TLC state is one implementation test (exact rational / Z[sqrt 2] expected values, 1e-9).",
+        note="Bounded scope. The statistical clause (estimator on generated screens follows the analytic curve) is not decided."),
 }
 
 NOT_APPLICABLE = {
